@@ -409,6 +409,33 @@ def limits_grid(spec, rec):
                 if run.max_retained > limit_here + 1 + step + len(pre):
                     rec.violation(f"limit:endless-line-retained:{pos}", f"{pos} {lim} step={step}: retained {run.max_retained} > limit {limit_here} + one read {step}", w)
                 rec.maxi(f"endless-retained-over-limit:{pos}", run.max_retained - limit_here)
+    # a block of short, well-formed lines whose terminating blank line never arrives: the number of fields is what must
+    # stop it (header block of requests and responses, trailer block), for every read size
+    for kind, pos, pre in (
+        ("request", "count", b"GET / HTTP/1.1\r\nHost: h\r\n"),
+        ("response", "count", b"HTTP/1.1 200 OK\r\n"),
+        ("request", "trailer-count", b"POST / HTTP/1.1\r\nHost: h\r\nTransfer-Encoding: chunked\r\n\r\n0\r\n"),
+    ):
+        for lim in CONFIGS[:4]:
+            ml, mf, mh = lim
+            for step in (1, 5, 7, 64, 4096):
+                run = ParserRun(kind, max_line_size=ml, max_field_size=mf, max_headers=mh)
+                run.feed(pre)
+                block = b"".join(b"x%d: v\r\n" % i for i in range(mh * 3 + 40))
+                fed = 0
+                while run.error is None and fed < len(block):
+                    run.feed(block[fed : fed + step])
+                    fed += step
+                rec.case(("endless-block", kind, pos, lim, step), nontrivial=True)
+                rec.count(f"endless-block:{kind}:{pos}:" + ("rejected" if run.error else "never-rejected"))
+                w = {"position": pos, "limits": lim, "step": step, "kind": kind, "endless": True, "block": True}
+                if run.error is None:
+                    rec.violation(f"limit:endless-block-never-rejected:{kind}:{pos}", f"{kind} {pos} {lim} step={step}: {mh * 3 + 40} fields without the end of the block accepted (max_headers={mh})", w)
+                # at most max_headers (+ slack) short lines of <= 12 bytes each may be held, plus one read
+                bound = (mh + 4) * 14 + step + len(pre)
+                if run.max_retained > bound:
+                    rec.violation(f"limit:endless-block-retained:{kind}:{pos}", f"{kind} {pos} {lim} step={step}: retained {run.max_retained} > {bound}", w)
+                rec.maxi(f"endless-block-retained:{kind}:{pos}", run.max_retained)
 
 
 # --------------------------------------------------------------------------------------------------
